@@ -3,48 +3,127 @@
 (* an insertion-ordered list of named parameters, each holding a typed value    *)
 (* and a "queried" flag.  A read with a type other than the exact stored type   *)
 (* yields the caller's default and does not mark the parameter as queried.      *)
+(*                                                                              *)
+(* Beyond one action per public member: the name / value argument may be the    *)
+(* object stored inside the parameter list (RemoveParamAt, SetParamFrom), a     *)
+(* parameter may exist without a value (findParam(name, true) of the protected  *)
+(* interface, type tag "none"), setting a value may fail with an exception of   *)
+(* the value's copy constructor (SetParamThrows), and macro actions stand for   *)
+(* loops of calls over a range of names (sizes on both sides of 2^8 ...).       *)
 EXTENDS Integers, Sequences, FiniteSets, TLC
 
-CONSTANTS Names,    \* parameter names (integers; the driver maps n to "p<n>")
+CONSTANTS Names,    \* parameter names (integers; the driver maps n to a concrete name)
           Types,    \* type tags, e.g. {"int","float","str"}
           Vals,     \* integer payloads (the driver builds a value of the tagged type from it)
-          MaxSize
+          MaxSize,
+          Ext,      \* further action groups taken by Next: subset of {"alias", "protected", "throw"}
+          RangeN    \* range lengths of the macro actions in Next ({} = none)
 
 VARIABLES ps, last      \* ps: sequence of [n, t, v, q]
 vars == <<ps, last>>
 
-Idx(n) == {i \in DOMAIN ps : ps[i].n = n}
-Has(n) == Idx(n) # {}
-Pos(n) == CHOOSE i \in Idx(n) : TRUE
+\* ---- the parameter list as a value ---------------------------------------------
+IdxIn(pp, n) == {i \in DOMAIN pp : pp[i].n = n}
+HasIn(pp, n) == IdxIn(pp, n) # {}
+PosIn(pp, n) == CHOOSE i \in IdxIn(pp, n) : TRUE
+SetF(pp, n, t, v) == IF HasIn(pp, n) THEN [pp EXCEPT ![PosIn(pp, n)].t = t, ![PosIn(pp, n)].v = v]
+                     ELSE Append(pp, [n |-> n, t |-> t, v |-> v, q |-> FALSE])
+AddF(pp, n)       == IF HasIn(pp, n) THEN pp ELSE Append(pp, [n |-> n, t |-> "none", v |-> 0, q |-> FALSE])
+HitIn(pp, n, t)   == HasIn(pp, n) /\ pp[PosIn(pp, n)].t = t
+GetF(pp, n, t)    == IF HitIn(pp, n, t) THEN [pp EXCEPT ![PosIn(pp, n)].q = TRUE] ELSE pp
+RemF(pp, n)       == SelectSeq(pp, LAMBDA p : p.n # n)
+NameSet(pp)       == {pp[i].n : i \in DOMAIN pp}
+
+Idx(n) == IdxIn(ps, n)
+Has(n) == HasIn(ps, n)
+Pos(n) == PosIn(ps, n)
 Row(p) == <<p.n, p.t, p.v, p.q>>
 Proj(pp) == [size |-> Len(pp), params |-> [i \in 1..Len(pp) |-> Row(pp[i])]]
 
+\* ---- macro operations: a loop of calls over the names lo .. lo+n-1 ---------------
+PV(k, d) == ((k * 7 + d) % 97) + 1
+InRange(k, lo, n) == k >= lo /\ k < lo + n
+SetRangeF(pp, lo, n, t, d) ==
+  LET have  == NameSet(pp)
+      over  == [i \in DOMAIN pp |-> IF InRange(pp[i].n, lo, n) THEN [pp[i] EXCEPT !.t = t, !.v = PV(pp[i].n, d)] ELSE pp[i]]
+      fresh == SelectSeq([i \in 1..n |-> lo + i - 1], LAMBDA k : k \notin have)
+  IN  over \o [i \in 1..Len(fresh) |-> [n |-> fresh[i], t |-> t, v |-> PV(fresh[i], d), q |-> FALSE]]
+GetRangeF(pp, lo, n, t) == [i \in DOMAIN pp |-> IF InRange(pp[i].n, lo, n) /\ pp[i].t = t THEN [pp[i] EXCEPT !.q = TRUE] ELSE pp[i]]
+HitsInRange(pp, lo, n, t) == Cardinality({i \in DOMAIN pp : InRange(pp[i].n, lo, n) /\ pp[i].t = t})
+RemoveEveryF(pp, lo, n, st, r) == SelectSeq(pp, LAMBDA p : ~(InRange(p.n, lo, n) /\ p.n % st = r))
+
+RECURSIVE SetRangeIter(_, _, _, _, _), GetRangeIter(_, _, _, _), RemoveEveryIter(_, _, _, _, _)
+SetRangeIter(pp, lo, n, t, d) == IF n = 0 THEN pp ELSE SetRangeIter(SetF(pp, lo, t, PV(lo, d)), lo + 1, n - 1, t, d)
+GetRangeIter(pp, lo, n, t)    == IF n = 0 THEN pp ELSE GetRangeIter(GetF(pp, lo, t), lo + 1, n - 1, t)
+RemoveEveryIter(pp, lo, n, st, r) ==
+  IF n = 0 THEN pp ELSE RemoveEveryIter(IF lo % st = r THEN RemF(pp, lo) ELSE pp, lo + 1, n - 1, st, r)
+
 Init == ps = <<>> /\ last = [a |-> "Init", arg |-> <<>>, exp |-> Proj(<<>>)]
+
+Step(a, arg, ret, pp) ==
+  /\ ps' = pp
+  /\ last' = [a |-> a, arg |-> arg, exp |-> [ret |-> ret] @@ Proj(pp)]
+StepC(a, cls, arg, ret, pp) ==
+  /\ ps' = pp
+  /\ last' = [a |-> a, cls |-> cls, arg |-> arg, exp |-> [ret |-> ret] @@ Proj(pp)]
 
 SetParam(n, t, v) ==
   /\ Has(n) \/ Len(ps) < MaxSize
-  /\ ps' = IF Has(n) THEN [ps EXCEPT ![Pos(n)].t = t, ![Pos(n)].v = v]
-                     ELSE Append(ps, [n |-> n, t |-> t, v |-> v, q |-> FALSE])
-  /\ last' = [a |-> "SetParam", arg |-> [n |-> n, t |-> t, v |-> v], exp |-> [ret |-> "void"] @@ Proj(ps')]
+  /\ Step("SetParam", [n |-> n, t |-> t, v |-> v], "void", SetF(ps, n, t, v))
 
 \* getParam<T>(name, default): default d is an integer payload distinct from stored ones
 GetParam(n, t, d) ==
-  LET hit == Has(n) /\ ps[Pos(n)].t = t IN
-  /\ ps' = IF hit THEN [ps EXCEPT ![Pos(n)].q = TRUE] ELSE ps
-  /\ last' = [a |-> "GetParam", arg |-> [n |-> n, t |-> t, d |-> d],
-              exp |-> [ret |-> IF hit THEN ps[Pos(n)].v ELSE d] @@ Proj(ps')]
+  Step("GetParam", [n |-> n, t |-> t, d |-> d], IF HitIn(ps, n, t) THEN ps[Pos(n)].v ELSE d, GetF(ps, n, t))
 
-HasParam(n) ==
-  /\ ps' = ps
-  /\ last' = [a |-> "HasParam", arg |-> [n |-> n], exp |-> [ret |-> Has(n)] @@ Proj(ps)]
+HasParam(n) == Step("HasParam", [n |-> n], Has(n), ps)
 
-RemoveParam(n) ==
-  /\ ps' = SelectSeq(ps, LAMBDA p : p.n # n)
-  /\ last' = [a |-> "RemoveParam", arg |-> [n |-> n], exp |-> [ret |-> "void"] @@ Proj(ps')]
+RemoveParam(n) == Step("RemoveParam", [n |-> n], "void", RemF(ps, n))
 
-ResetQuery ==
-  /\ ps' = [i \in DOMAIN ps |-> [ps[i] EXCEPT !.q = FALSE]]
-  /\ last' = [a |-> "ResetQuery", arg |-> <<>>, exp |-> [ret |-> "void"] @@ Proj(ps')]
+ResetQuery == Step("ResetQuery", <<>>, "void", [i \in DOMAIN ps |-> [ps[i] EXCEPT !.q = FALSE]])
+
+\* removeParam(name) where `name` is the name object stored in the i-th parameter (0-based):
+\*   removeParam((*(params_begin() + i))->name)
+RemoveParamAt(i) ==
+  IF i < Len(ps)
+  THEN StepC("RemoveParamAt", IF i + 1 = Len(ps) THEN "name=stored-object,last" ELSE "name=stored-object,not-last",
+             [i |-> i, n |-> ps[i + 1].n], "void", RemF(ps, ps[i + 1].n))
+  ELSE StepC("RemoveParamAt", "beyond-the-end", [i |-> i, n |-> -1], "not-callable", ps)     \* the driver makes no call
+
+\* setParam(n, <const reference to the value stored in parameter n2>): the value is copied; n = n2 sets a
+\* parameter to its own value; a new n grows the list while the reference into it is alive
+SetParamFrom(n, n2) ==
+  IF Has(n2) /\ ps[Pos(n2)].t # "none"
+  THEN /\ Has(n) \/ Len(ps) < MaxSize
+       /\ StepC("SetParamFrom", IF n = n2 THEN "own-value" ELSE IF Has(n) THEN "value-of-other,present" ELSE "value-of-other,new",
+                [n |-> n, n2 |-> n2], "void", SetF(ps, n, ps[Pos(n2)].t, ps[Pos(n2)].v))
+  ELSE StepC("SetParamFrom", "no-source-value", [n |-> n, n2 |-> n2], "not-callable", ps)    \* the driver makes no call
+
+\* findParam(name, true) of the protected interface: the parameter exists afterwards, without a value if it is new
+FindOrAdd(n) ==
+  /\ Has(n) \/ Len(ps) < MaxSize
+  /\ Step("FindOrAdd", [n |-> n], "void", AddF(ps, n))
+
+\* setParam<T>(n, x) where copying x throws.  Nothing was written: a present parameter keeps type, value and
+\* flag, every other parameter is untouched, no other name appears.  Whether a NEW name now exists without a
+\* value is not something the property statement decides (both outcomes are accepted).
+SetParamThrows(n) ==
+  \/ StepC("SetParamThrows", IF Has(n) THEN "present" ELSE "absent,not-created", [n |-> n], "throws", ps)
+  \/ /\ ~Has(n) /\ Len(ps) < MaxSize
+     /\ StepC("SetParamThrows", "absent,created-without-value", [n |-> n], "throws", AddF(ps, n))
+
+\* ---- macro actions ----------------------------------------------------------------
+SetRange(lo, n, t, d) ==
+  /\ lo >= 0 /\ n >= 0
+  /\ Cardinality(NameSet(ps) \cup lo..(lo + n - 1)) <= MaxSize
+  /\ StepC("SetRange", n, [lo |-> lo, n |-> n, t |-> t, d |-> d], "void", SetRangeF(ps, lo, n, t, d))
+\* getParam<t>(name, default) for every name of the range; returns how many calls did not yield the default
+GetRange(lo, n, t) ==
+  /\ lo >= 0 /\ n >= 0
+  /\ StepC("GetRange", n, [lo |-> lo, n |-> n, t |-> t], HitsInRange(ps, lo, n, t), GetRangeF(ps, lo, n, t))
+\* how = "name": removeParam(name(k)) for k ascending; how = "alias": one pass over the list, removeParam((*it)->name)
+RemoveEvery(lo, n, st, r, how) ==
+  /\ lo >= 0 /\ n >= 0 /\ st > 0
+  /\ StepC("RemoveEvery", how, [lo |-> lo, n |-> n, st |-> st, r |-> r, how |-> how], "void", RemoveEveryF(ps, lo, n, st, r))
 
 DefaultVal == 99
 
@@ -53,17 +132,37 @@ Next ==
   \/ \E n \in Names, t \in Types : GetParam(n, t, DefaultVal)
   \/ \E n \in Names : HasParam(n) \/ RemoveParam(n)
   \/ ResetQuery
+  \/ /\ "alias" \in Ext
+     /\ \/ \E i \in 0..(MaxSize - 1) : RemoveParamAt(i)
+        \/ \E n \in Names, n2 \in Names : SetParamFrom(n, n2)
+  \/ /\ "protected" \in Ext
+     /\ \E n \in Names : FindOrAdd(n)
+  \/ /\ "throw" \in Ext
+     /\ \E n \in Names : SetParamThrows(n)
+  \/ \E n \in RangeN, lo \in Names :
+        \/ \E t \in Types, d \in Vals : SetRange(lo, n, t, d)
+        \/ \E t \in Types : GetRange(lo, n, t)
+        \/ \E st \in 1..2, r \in 0..1, how \in {"name", "alias"} : RemoveEvery(lo, n, st, r, how)
 
 Spec == Init /\ [][Next]_vars
 
-UniqueNames == \A i, j \in DOMAIN ps : ps[i].n = ps[j].n => i = j
+UniqueNames == Cardinality(NameSet(ps)) = Len(ps)
 LastAgrees  == last.exp.params = Proj(ps).params
+\* a parameter without a value is never marked queried
+NoneNotQueried == \A i \in DOMAIN ps : ps[i].t = "none" => ~ps[i].q
 \* a parameter is marked queried only by a read with its exact type: checked as an action property
 QueryOnlyByExactRead ==
   [][\A i \in DOMAIN ps' : (ps'[i].q /\ ~(\E j \in DOMAIN ps : ps[j].n = ps'[i].n /\ ps[j].q))
-        => (last'.a = "GetParam" /\ last'.arg.n = ps'[i].n /\ last'.arg.t = ps'[i].t)]_vars
+        => \/ (last'.a = "GetParam" /\ last'.arg.n = ps'[i].n /\ last'.arg.t = ps'[i].t)
+           \/ (last'.a = "GetRange" /\ InRange(ps'[i].n, last'.arg.lo, last'.arg.n) /\ last'.arg.t = ps'[i].t)]_vars
 \* the flag survives until reset / removal
 QueryUntilReset ==
   [][\A j \in DOMAIN ps : (ps[j].q /\ ~(\E i \in DOMAIN ps' : ps'[i].n = ps[j].n /\ ps'[i].q))
-        => last'.a \in {"ResetQuery", "RemoveParam"}]_vars
+        => last'.a \in {"ResetQuery", "RemoveParam", "RemoveParamAt", "RemoveEvery"}]_vars
+\* a macro action is the iteration of the single calls it stands for
+MacroIsIteration ==
+  \A n \in RangeN, lo \in Names, t \in Types :
+     /\ \A d \in Vals : Cardinality(NameSet(ps) \cup lo..(lo + n - 1)) <= MaxSize => SetRangeF(ps, lo, n, t, d) = SetRangeIter(ps, lo, n, t, d)
+     /\ GetRangeF(ps, lo, n, t) = GetRangeIter(ps, lo, n, t)
+     /\ \A st \in 1..2, r \in 0..1 : RemoveEveryF(ps, lo, n, st, r) = RemoveEveryIter(ps, lo, n, st, r)
 ===============================================================================
